@@ -26,7 +26,11 @@ def gen_version(rnd: random.Random, *, suffix_p: float = 0.35, epoch_p: float = 
     segs = SEGS if rnd.random() < 0.9 else SEGS + [11, 19, 20, 99, 100, 2024]
     s = ".".join(str(rnd.choice(segs)) for _ in range(n))
     if rnd.random() < epoch_p:
-        s = f"{rnd.choice([1, 2, 1, 2, 10, 20, 100])}!{s}"
+        # (now and then a number at / beyond the machine word: sentinels such as sys.maxsize are ordinary values here)
+        big = [2 ** 31 - 1, 2 ** 31, 2 ** 63 - 1, 2 ** 63, 2 ** 64, 10 ** 30]
+        s = f"{rnd.choice([1, 2, 1, 2, 10, 20, 100]) if rnd.random() < 0.85 else rnd.choice(big)}!{s}"
+    elif rnd.random() < 0.01:
+        s = f"{rnd.choice([2 ** 31, 2 ** 63 - 1, 2 ** 63, 2 ** 64, 10 ** 30])}.{s}"     # a huge leading release number
     if rnd.random() < suffix_p:
         k = rnd.random()
         if k < 0.4:
